@@ -16,3 +16,6 @@ func verifNumCommands(q *driver.CommandQueue) int { return q.VerifNumCommands() 
 func verifEngineRunning(d *driver.Driver) bool    { return d.VerifEngineRunning() }
 func verifPending(e *sim.SerialEngine) int        { return e.VerifPendingEvents() }
 func ctxPID(c *driver.Context) vm.PID             { return vm.PID(c.VerifPID()) }
+
+func verifQueues(d *driver.Driver) []*driver.CommandQueue { return d.VerifQueues() }
+func verifNumListeners(q *driver.CommandQueue) int        { return q.VerifNumListeners() }
